@@ -87,6 +87,8 @@ def gen_spec(rng, *, random_units=True, sl_bias=0.35, rules=None, currents=None,
             mod = rng.choice([0.5, 1, 1.25, 2, 3]) * 1e-3
             a = {'type': kind, 'z': rng.randint(10, 60), 'J': J(), **gear_opt(mod)}
             bb = {'type': kind, 'z': rng.randint(10, 80), 'J': J(), **gear_opt(mod)}
+            if rng.random() < 0.12:
+                bb['z'] = a['z']      # a mating with equal tooth counts: ratio exactly 1, efficiency still below 1
             if kind == 'helical':
                 h = rng.uniform(5, 40)
                 hu = in_unit(rng, 'Angle', h * math.pi / 180, ru)
@@ -180,6 +182,8 @@ def gen_spec(rng, *, random_units=True, sl_bias=0.35, rules=None, currents=None,
                      'speed': in_unit(rng, 'AngularSpeed', dy(rng, -3, 3) if rng.random() > 0.15 else 0.0, ru)},
             'rules': None, 'ops': []}
     angle_init(rng, spec['init'])
+    if ru and rng.random() < 0.15:
+        spec['load']['units'] = rng.sample(list(SI['Torque'].keys()), rng.randint(2, 3))      # answers in changing units
     if rng.random() < 0.15:
         spec['load']['numpy'] = True      # the load function returns numpy scalars
     if ru and rng.random() < 0.12:
